@@ -162,8 +162,7 @@ def case_oracle(case):
         for v in top:
             try:
                 for u in pg(v):
-                    if (id(u) not in top_ids) if not dup else (
-                            u not in top_set):
+                    if id(u) not in top_ids:
                         continue      # a freshly computed shape expression
                     got_preds[(eqclass(u), eqclass(v))] += 1
             except Exception as e:  # noqa: BLE001
